@@ -269,6 +269,11 @@ def _enumerated(ck):
     cases.append(("SineWaves1d/length-mismatch", raises(lambda: ex.ic.SineWaves1d(1.0, (1.0, 2.0), (1,), (0.0,)))))
     cases.append(("SineWaves1d/valid", not raises(lambda: ex.ic.SineWaves1d(1.0, (1.0,), (1,), (0.0,)))))
     cases.append(("GrayScott-nonlin/wrong-channels", raises(lambda: ex.stepper.reaction.GrayScott(1, 1.0, 8, 0.1)._integrator._nonlinear_fun(jnp.ones((3, 5), complex)))))
+    for C in (1, 2, 3, 4):
+        cases.append((f"GrayScott-nonlin/channels{C}", raises(lambda: ex.stepper.reaction.GrayScott(1, 1.0, 8, 0.1)._integrator._nonlinear_fun(jnp.ones((C, 5), complex))) == (C != 2)))
+    for n in range(0, 6):
+        cases.append((f"GeneralNonlinearStepper/{n}-nonlinear-coefficients", raises(lambda: ex.stepper.generic.GeneralNonlinearStepper(1, 1.0, 8, 0.1, nonlinear_coefficients=(0.0,) * n)) == (n != 3)))
+        cases.append((f"NormalizedNonlinearStepper/{n}-nonlinear-coefficients", raises(lambda: ex.stepper.generic.NormalizedNonlinearStepper(1, 8, normalized_nonlinear_coefficients=(0.0,) * n)) == (n != 3)))
     cases.append(("Convection/multi-channel-mismatch", raises(lambda: ex.stepper.Burgers(2, 1.0, 8, 0.1)._integrator._nonlinear_fun(jnp.ones((3, 8, 5), complex)))))
     for nm, ok in cases:
         ck.add(f"enumerated/{nm}", bool(ok), [], family=fam, replay=lambda m, nm=nm: {"reproduced": True, "detail": f"guard behaviour differs from the documentation for {nm}"})
